@@ -133,6 +133,16 @@ func reTable(pats []string, data ...interface{}) string {
 	for _, d := range data {
 		collectStrings(reflect.ValueOf(d), subs, 0)
 	}
+	// what the scalar-rewriting hook (hookFn 5) makes of them
+	for s := range subs {
+		b := []byte(s)
+		for i, c := range b {
+			if c >= 'a' && c <= 'z' {
+				b[i] = c - 32
+			}
+		}
+		subs[string(b)] = true
+	}
 	var tb []string
 	seen := map[string]bool{}
 	for _, p := range pats {
